@@ -236,8 +236,8 @@ func fmtErrorSourceLineWithParser(p *syntax.Parser, cursorIdx int, withCursorMar
 		}
 		startIdx -= 1
 	}
-	// find next until meeting first CR/LF
-	for endIdx < len(sourceT) {
+	// find next until meeting first CR/LF (or the EOF mark appended above)
+	for endIdx < len(sourceT)-1 {
 		if sourceT[endIdx] == syntax.RuneCR || sourceT[endIdx] == syntax.RuneLF {
 			break
 		}
